@@ -21,6 +21,7 @@ from .. import core
 from . import c08
 
 DDP = c08.DDP
+ZONES = ["UTC", "EET-2", "EST5", "IST-5:30", "<+13>-13"]      # POSIX TZ strings: UTC+0, +2, -5, +5:30, +13
 OP_KINDS = ["write_same", "write_diff", "write_equal", "append", "truncate", "touch", "unlink", "recreate_same",
             "recreate_diff", "recreate_equal", "dir", "fifo", "symlink_dangling", "symlink_dir"]
 
@@ -47,6 +48,8 @@ def gen_hist(rng, cid):
     # root, so a changed file can sit anywhere inside a sub-group that is dropped as a whole
     iso = rng.choice([[], [], [], ["r0", "r1"], ["r1", "r0"], ["r1"], ["r0"], ["r0/d", "r0", "r1"]])
     return {"id": cid, "len": 1 + rng.below(6), "members": members, "ops": ops, "op": rng.choice(c08.OPS), "iso": iso,
+            # the dedupe run may read the header's instant expressed with another UTC offset (None: as written)
+            "tz_off": rng.choice([None, None, 0, 7200, -18000, 19800, 46800]),
             "nosize": rng.chance(1, 5), "prio": rng.choice([[], [], [4], [5], [10], [0], [4, 11]]),
             "n": rng.choice([None, None, 1, 2]), "format": rng.choice(["text", "json"]), "mlinks": rng.chance(1, 5)}
 
@@ -60,14 +63,15 @@ def run_hist(cases, scratch, timeout=240):
     def one(args):
         i, part = args
         sdir = os.path.join(scratch, "s%d" % i)
+        env = {"TZ": ZONES[i % len(ZONES)]}      # write_report stamps Local::now(): local time + this zone's offset
         try:
-            return core.run_lines(DDP, part, ["hist", sdir], timeout=timeout)
+            return core.run_lines(DDP, part, ["hist", sdir], env=env, timeout=timeout)
         except subprocess.TimeoutExpired:
             # a hanging dedupe run (e.g. a command opening a fifo): find the history, one by one
             out = []
             for l in part:
                 try:
-                    out += core.run_lines(DDP, [l], ["hist", sdir], timeout=20)
+                    out += core.run_lines(DDP, [l], ["hist", sdir], env=env, timeout=20)
                 except subprocess.TimeoutExpired:
                     out.append("%d\tHANG\t-" % json.loads(l)["id"])
             return out
@@ -178,6 +182,8 @@ def examine(ctx, cases, res, mout, count=True):
                          "%s:%s:%s" % (keyed[pos][0], "single" if size == 1 else ("first" if first == pos else "non-first"),
                                        "before_report" if o["phase"] == 1 else "after_report"))
             ctx.bump("no_check_size", case["nosize"])
+            ctx.bump("utc_offset_of_header_s", r["info"].get("header_utc_offset"))
+            ctx.bump("utc_offset_of_cutoff_s", r["info"].get("cutoff_utc_offset"))
             ctx.bump("report_format", case["format"])
             ctx.bump("commands_issued", cmds != "-")
             ctx.bump("members_changed_before_run", sum(1 for p in r["info"]["last_phase"] if p > 0))
@@ -222,7 +228,7 @@ def report(ctx, fails, model_bin, scratch):
     for kind, rec, text in fails:
         if kind == "corr":
             continue
-        if kind in ("changed_between_hashing_and_report_timestamp", "dedupe_run_hangs"):
+        if kind in ("changed_between_hashing_and_report_timestamp", "dedupe_run_hangs") or "cli_hist_spec" in rec:
             ctx.violation({"kind": kind}, text, rec, found_input=True)
             continue
         if kind in seen:
@@ -253,7 +259,7 @@ def report(ctx, fails, model_bin, scratch):
                    disagreeing_cases=len(corr))
         if not have_input:
             found = None
-            for _, r, _ in corr[:2]:
+            for _, r, _ in [c for c in corr if "case" in c[1]][:2]:
                 nb = neighbourhood(r["case"])
                 res, mo = run_both(ctx, nb, model_bin, scratch)
                 for x in examine(ctx, nb, res, mo, count=False):
@@ -291,6 +297,176 @@ def directed_isolate_cases(start):
     return out
 
 
+# ------------------------------------------------------------------------------------------------
+# CLI layer: the binary end to end (main.rs run_dedupe: header time stamp as cut-off, header options merged),
+# `group` and the dedupe command under different TZ, edits after the report, real (not dry) runs of all five ops
+
+CLI_OPS = {"rm": ["remove"], "hl": ["link"], "sl": ["link", "--soft"], "rl": ["dedupe"], "mv": ["move"]}
+CLI_EDITS = ["none", "rewrite_same_after", "append_after", "append_mtime_restored", "truncate_mtime_restored"]
+
+
+def gen_cli_hist(rng):
+    roots = ["r0", "r1"]
+    files = []
+    for k in range(3 + rng.below(3)):
+        r = roots[k] if k < 2 else rng.choice(roots)
+        f = {"rel": "%s/%sf%d" % (r, rng.choice(["", "d/"]), k), "link_of": None}
+        if k >= 2 and rng.chance(1, 5):
+            f["link_of"] = rng.below(k)
+            if files[f["link_of"]]["link_of"] is not None:
+                f["link_of"] = None
+        files.append(f)
+    gopts = []
+    if rng.chance(1, 2):
+        gopts.append("-S")
+    if rng.chance(1, 3):
+        gopts.append("-H")
+    isolate = rng.chance(1, 3)
+    if isolate:
+        gopts.append("--isolate")
+    if rng.chance(1, 4):
+        gopts += ["--rf-over", "1"]
+    return {"files": files, "gopts": gopts, "edit": rng.choice(CLI_EDITS), "victim": rng.below(len(files)),
+            "op": rng.choice(sorted(CLI_OPS)), "tz_group": rng.choice(ZONES), "tz_dedupe": rng.choice(ZONES)}
+
+
+def inventory(paths):
+    out = {}
+    for p in paths:
+        try:
+            st = os.lstat(p)
+        except OSError:
+            out[p] = ("missing",)
+            continue
+        import stat as _st
+        if _st.S_ISLNK(st.st_mode):
+            out[p] = ("symlink", os.readlink(p))
+        elif _st.S_ISREG(st.st_mode):
+            out[p] = ("file", st.st_ino, open(p, "rb").read().hex())
+        else:
+            out[p] = ("other", st.st_ino)
+    return out
+
+
+def run_cli_hist(ctx, spec, model_bin, fclones, clidir, count=True):
+    """-> list of (kind, record, text)"""
+    import datetime
+    import shutil
+    import time
+    shutil.rmtree(clidir, ignore_errors=True)
+    tree = os.path.join(clidir, "tree")
+    other = os.path.join(clidir, "other")
+    os.makedirs(other)
+    content = b"DDDDDDDD"
+    paths = []
+    for f in spec["files"]:
+        p = os.path.join(tree, f["rel"])
+        os.makedirs(os.path.dirname(p), exist_ok=True)
+        if f["link_of"] is not None:
+            os.link(paths[f["link_of"]], p)
+        else:
+            with open(p, "wb") as fh:
+                fh.write(content)
+            os.utime(p, (1_600_000_000, 1_600_000_000))
+        paths.append(p)
+    env_g = dict(os.environ, TZ=spec["tz_group"], RAYON_NUM_THREADS="2")
+    env_d = dict(os.environ, TZ=spec["tz_dedupe"], RAYON_NUM_THREADS="2")
+    g = c08.sh([fclones, "group"] + spec["gopts"] + ["r0", "r1"], tree, env=env_g)
+    if g.returncode != 0:
+        raise RuntimeError("fclones group failed: " + g.stderr[-400:])
+    report = g.stdout
+    lines = report.split("\n")
+    ts_line = [l for l in lines if l.startswith("# Timestamp:")][0][len("# Timestamp: "):]
+    ts = datetime.datetime.strptime(ts_line, "%Y-%m-%d %H:%M:%S.%f %z")
+    ts_ns = int(round(ts.timestamp() * 1000)) * 10 ** 6
+    time.sleep(0.02)
+    v = paths[spec["victim"]]
+    edit = spec["edit"]
+    if edit == "rewrite_same_after":
+        with open(v, "wb") as fh:
+            fh.write(b"EEEEEEEE")
+    elif edit == "append_after":
+        with open(v, "ab") as fh:
+            fh.write(b"EE")
+    elif edit == "append_mtime_restored":
+        with open(v, "ab") as fh:
+            fh.write(b"EE")
+        os.utime(v, (1_600_000_000, 1_600_000_000))
+    elif edit == "truncate_mtime_restored":
+        os.truncate(v, 5)
+        os.utime(v, (1_600_000_000, 1_600_000_000))
+    time.sleep(0.01)
+    # groups of the report and the model's prediction: partition (merge header cli) per group
+    groups, cur = [], None
+    for l in lines:
+        if l.startswith("#") or not l.strip():
+            continue
+        if not l.startswith("    "):
+            cur = {"glen": int(l.split(",")[1].strip().split(" ")[0]), "files": []}
+            groups.append(cur)
+        else:
+            cur["files"].append(l[4:])
+    gopts = spec["gopts"]
+    rfo = "1" if "--rf-over" in gopts else "-"
+    mlines = []
+    for gr in groups:
+        mem = []
+        for f in gr["files"]:
+            st = os.stat(f)
+            mem.append(" %s %d %d %d %d %d %d - %d,%d - - - - 1" % (
+                c08.comps_hex(f), st.st_dev, st.st_ino, st.st_size, 1, st.st_mtime_ns, st.st_atime_ns,
+                st.st_ctime_ns // 10 ** 9, st.st_ctime_ns % 10 ** 9))
+        hf = "0 %d %s 0 0 %d %s %d" % ("-H" in gopts, rfo, "--isolate" in gopts,
+                                      ",".join(c08.comps_hex(os.path.join(tree, r)) for r in ("r0", "r1")), ts_ns)
+        mlines.append("M " + hf + " # rm - 0 0 - - %d - 0,0,0,0 |" % gr["glen"] + " ;".join(mem))
+    mout = core.run_lines(model_bin, mlines) if mlines else []
+    predicted = set()
+    for gr, o in zip(groups, mout):
+        if o.startswith("EXN"):
+            raise RuntimeError("model: " + o)
+        pm = o.split(" ## ")[0]
+        if pm.startswith("ok"):
+            d = pm.split("D=")[1]
+            if d != "-":
+                predicted |= set(gr["files"][int(i)] for i in d.split(","))
+    pre = inventory(paths)
+    cmd = [fclones] + CLI_OPS[spec["op"]] + ([os.path.join(clidir, "moved")] if spec["op"] == "mv" else [])
+    d = c08.sh(cmd, other, stdin=report, env=env_d)
+    post = inventory(paths)
+    changed = set(p for p in paths if pre[p] != post[p])
+    fails = []
+    rel = lambda ps: sorted(x.replace(tree + "/", "") for x in ps)
+    rec = {"cli_hist_spec": spec, "report_timestamp": ts_line, "dedupe_exit": d.returncode, "dedupe_stderr": d.stderr[-1500:].replace(clidir, "<dir>"),
+           "changed_paths": rel(changed), "model_predicts": rel(predicted),
+           "pre": {k.replace(tree + "/", ""): list(x) for k, x in pre.items()}, "post": {k.replace(tree + "/", ""): list(x) for k, x in post.items()}}
+    # oracle: every path acted upon held bytes an untouched regular member still holds
+    for p in sorted(changed):
+        if pre[p][0] != "file":
+            continue
+        holders = [q for q in paths if q != p and pre[q] == post[q] and pre[q][0] == "file" and pre[q][2] == pre[p][2]]
+        if not holders:
+            fails.append(("changed_data_lost", rec, "%s held %s (edit: %s on %s) and was removed/replaced by `fclones %s`; no untouched "
+                          "member holds these bytes" % (p.replace(tree + "/", ""), bytes.fromhex(pre[p][2]), edit,
+                                                        spec["files"][spec["victim"]]["rel"], " ".join(CLI_OPS[spec["op"]]))))
+    # correspondence: the set of paths the run changed = what partition (merge header cli) drops
+    if spec["op"] == "rl":
+        ok = changed <= predicted          # no FICLONE on this file system: the commands fail and change nothing
+    else:
+        ok = changed == predicted
+    if not ok:
+        fails.append(("corr", rec, "CLI run changed %s, model of run_dedupe (merge of the header + partition) predicts %s" % (rel(changed), rel(predicted))))
+    if count:
+        ctx.count()
+        ctx.distinct(("clihist", json.dumps(spec, sort_keys=True)), len(changed) > 0)
+        ctx.bump("cli_group_options", " ".join(gopts) or "(none)")
+        ctx.bump("cli_edit", edit)
+        ctx.bump("cli_op", spec["op"])
+        ctx.bump("cli_zones(group>dedupe)", "%s>%s" % (spec["tz_group"], spec["tz_dedupe"]))
+        ctx.bump("cli_paths_changed", len(changed))
+    shutil.rmtree(clidir, ignore_errors=True)
+    return fails
+
+
 K1_CASE = {"len": 4, "members": [{"path": "a"}, {"path": "b"}], "ops": [{"m": 1, "phase": 1, "kind": "write_same"}],
            "op": "rm", "iso": [], "nosize": False, "prio": [], "n": None, "format": "text", "mlinks": False}
 
@@ -318,6 +494,10 @@ def run(ctx):
     os.makedirs(scratch, exist_ok=True)
     if ctx.replay:
         rp = json.load(open(ctx.replay))
+        if "cli_hist_spec" in rp:
+            fl = run_cli_hist(ctx, rp["cli_hist_spec"], model_bin, core.build_fclones(), os.path.join(ctx.scratch, "cli"))
+            report(ctx, fl, model_bin, scratch)
+            return
         case = rp.get("minimised_case") or rp["case"]
         res, mo = run_both(ctx, [case], model_bin, scratch)
         report(ctx, examine(ctx, [case], res, mo), model_bin, scratch)
@@ -342,5 +522,8 @@ def run(ctx):
         ctx.extra["exhaustive_single_operation_histories"] = cid - 100000
     res, mo = run_both(ctx, cases, model_bin, scratch)
     fails = examine(ctx, cases, res, mo)
+    fclones = core.build_fclones()
+    for _ in range(ctx.pick(120, 1500)):
+        fails += run_cli_hist(ctx, gen_cli_hist(ctx.rng), model_bin, fclones, os.path.join(ctx.scratch, "cli"))
     report(ctx, fails, model_bin, scratch)
     ctx.extra["exhaustive"] = False
